@@ -55,6 +55,7 @@ type Conn struct {
 	ReadErr  func(k int) error  // if non-nil and returns an error for read #k, ReadFrom fails with it
 	Delay    func(point string) // optional delay injection ("rx.before", "rx.after", "tx.before", "tx.after")
 	WriteErr func(k int) error
+	OnTake   func(k int) // called inside ReadFrom call #k after it has taken a datagram, before it returns it
 }
 
 func New(buffer int) *Conn {
@@ -124,6 +125,9 @@ func (c *Conn) ReadFrom(b []byte) (int, net.Addr, error) {
 	select {
 	case d := <-c.rx:
 		n := copy(b, d.B) // writes only into the buffer of THIS call, like a real socket
+		if c.OnTake != nil {
+			c.OnTake(k)
+		}
 		if c.Delay != nil {
 			c.Delay("rx.after")
 		}
